@@ -233,6 +233,40 @@ func init() {
 				}
 			}
 		}
+		// nothing depends on earlier calls made with other options: the same dump is rendered without path
+		// guessing and then with it (its frames are then standard library), and a second dump - the same
+		// but for fresh package and function names - the other way round; name for name the pages agree
+		{
+			groot := filepath.Join(root, "goroot")
+			mkd := func(k int) string {
+				_ = os.MkdirAll(filepath.Join(groot, "src", fmt.Sprint("detpkg", k)), 0o755)
+				_ = os.WriteFile(filepath.Join(groot, "src", fmt.Sprint("detpkg", k), "f.go"), []byte("package p\n"), 0o644)
+				return fmt.Sprintf("goroutine 1 [running]:\ndetpkg%d.Serve%d(0x1)\n\t/remote/goroot/src/detpkg%d/f.go:5 +0x1\ndetpkg%d.(*T).run%d()\n\t/remote/goroot/src/detpkg%d/f.go:9 +0x1\n\ngoroutine 2 [select]:\ndetpkg%d.Serve%d(0x2)\n\t/remote/goroot/src/detpkg%d/f.go:5 +0x1\n", k, k, k, k, k, k, k, k, k)
+			}
+			oa := &stack.Opts{NameArguments: true}
+			ob := &stack.Opts{LocalGOROOT: groot, GuessPaths: true, NameArguments: true}
+			pageOf := func(dump string, o *stack.Opts, k int) string {
+				sn := parseDump(dump, o)
+				if sn == nil {
+					return "no snapshot"
+				}
+				out := renderAll(sn, []int{0, 1, 2, 3, 4})
+				out = strings.ReplaceAll(out, fmt.Sprint("detpkg", k), "detpkgK")
+				out = strings.ReplaceAll(out, fmt.Sprint("Serve", k), "ServeK")
+				return strings.ReplaceAll(out, fmt.Sprint("run", k), "runK")
+			}
+			d1, d2 := mkd(1), mkd(2)
+			a1, b1 := pageOf(d1, oa, 1), pageOf(d1, ob, 1)
+			b2, a2 := pageOf(d2, ob, 2), pageOf(d2, oa, 2)
+			if !strings.Contains(b1+b2, "golang.org/pkg/") {
+				res.drift(Finding{Property: "C06", Aspect: "history", What: "with path guessing the frames of the history pair are not linked as standard library: the pair exercises nothing"})
+			}
+			if a1 != a2 || b1 != b2 {
+				res.violation(Finding{Property: "C06", Aspect: "history", What: "the pages written for a dump depend on the options of earlier calls in the same process: rendered without and then with path guessing, a dump gives other pages than an identical one (fresh names) rendered with and then without", Input: []byte(d1),
+					Expected: map[string]bool{"without guessing agree": a1 == a2, "with guessing agree": b1 == b2}})
+			}
+			res.count("history_pairs", 1)
+		}
 		// across processes
 		if *bin != "" {
 			pr := &ppRunner{bin: *bin, cache: map[string]ppOut{}, env: append(os.Environ(), "GOTRACEBACK=all", "TERM=dumb", "GOPATH="+gp)}
